@@ -136,6 +136,12 @@ def run(rep, tier, seed, model_ok=True, effort=1):
                 parse_items.append("(%s,%s,%s)" % (cs(cand), cs(pat), v2gen.cpres_vinfo(res)))
                 parse_meta.append((cand, pat, res))
         rep.sample(dict(pattern=pat, date=str(d), rendered=s, wf=info["wf"]))
+    # witnesses of the known finding (week 53), replayed on every run
+    from bumpver import version as _ver
+    for wd, wpat in ((dt.date(2018, 12, 31), "vYYYY.WW"), (dt.date(2017, 12, 31), "vYYYY.0U")):
+        wv = _ver.V2VersionInfo(*impl.v2version.cal_info(wd), 0, 0, 0, "1001", "final", "", "", "", 0, 0, 1)
+        roundtrip_oracle(rep, impl, wv, wpat, dict(wf=True))
+        rep.case(("witness", wpat, str(wd)))
     # calendar sweep: every part on consecutive days (quick: 2 years; thorough: 2001..2099 + samples 1000..9999)
     sweep_pats = ["YYYY.0M.0D", "YYYY.MM.DD", "YY.0M", "0Y.JJJ", "YYYY.00J", "YYYYw0W.0U", "YYYY.WW.UU", "GGGG.0V", "GG.VV", "0G.0V", "YYYY.Q"]
     start = dt.date(2018, 12, 1) if tier == "quick" else dt.date(2001, 1, 1)
